@@ -58,6 +58,14 @@ package device
 // obligation `locked[mutex] || !concurrent`; the methods below are only called in such a context (implicit precondition).
 //@ ghost var locked set[Ref]
 //@ ghost var concurrent bool
+// goroutine life cycle: contexts handed to started goroutines / contexts cancelled; WaitGroup bookkeeping of the function
+// that starts them (Add total, goroutines started with the group) and of each goroutine (Done calls)
+//@ ghost var spawnedCtx set[Ref]
+//@ ghost var cancelled set[Ref]
+//@ ghost var wgSpawned int
+//@ ghost var wgAdded int
+//@ ghost var wgDone int
+//@ spec fn cancelCtx(f Ref) Ref
 //@ guarded_by Device.eventProcessMutex [C16]: noteTracker, analogNoteTracker, activeNotesCounter, lastAnalogValue, actionTracker, ccZeroed, keyTracker, octave, semitone, channel, velocity, multiNote, mapping, ccLearning
 //@ guarded_by Device.externalTrackerMutex [C16]: externalNoteTracker
 // monitor invariant of the MIDI-input tracker: at Lock the handle in d.externalNoteTracker is whatever the last critical
@@ -549,6 +557,13 @@ package device
 // C01, second sentence: when the event stream ends (at any moment: the loop invariant holds after every prefix),
 // every note still tracked is released before processing ends, so nothing is left sounding at the receiver.
 //@ func (*Device).ProcessEvents
+// "ends promptly, leaves nothing behind" - the part that is a safety property of this thread: when it waits, every goroutine it
+// started was told to stop (its context is cancelled) and is counted in the WaitGroup (obligations at wg.Wait, see extern.hvc)
+//@   requires [C17] extOK(d)
+//@   ghost entry spawnedCtx = emptyset("set[Ref]")
+//@   ghost entry cancelled = emptyset("set[Ref]")
+//@   ghost entry wgSpawned = 0
+//@   ghost entry wgAdded = 0
 //@   requires [C16] !locked[d.eventProcessMutex] && !locked[d.externalTrackerMutex]
 //@   loop 1 invariant [C16] !locked[d.eventProcessMutex] && !locked[d.externalTrackerMutex]
 //@   requires wf(d) && tableOK(d) && Inv(d) && cfgRanges(d.config) && cfgDz(d.config) && lavOK(d.config, d.lastAnalogValue)
@@ -594,6 +609,8 @@ package device
 //@   loop 5 invariant [C05] subhandlers != nil && (forall m int, sub string :: 0 <= m && m < idx(4) - 1 && has(cfg.Config.KeyMappings[m].Analog, sub) ==> has(subhandlers, sub))
 //@   loop 5 invariant [C05] idx(4) >= 1 && idx(4) <= len(cfg.Config.KeyMappings) && mapping.Analog == cfg.Config.KeyMappings[idx(4) - 1].Analog && (forall sub string :: visited(sub) ==> has(subhandlers, sub))
 //@   loop 6 invariant [C05] lastAnalogValue != nil && (forall sub string :: visited(sub) ==> has(lastAnalogValue, sub) && vals(lastAnalogValue)[sub] != nil)
+//@   ensures [C17] forall p *Device :: p != nil && pointsTo(p, result) ==> extOK(p)
+//@   loop 3 invariant [C17] inmap != nil && i <= 16 && (forall c byte :: c < i ==> has(inmap, c) && inmap[c] != nil)
 //@   loop 1 invariant ch <= 16 && activeNoteCounter != nil
 //@   loop 1 invariant forall c byte :: c < ch ==> has(activeNoteCounter, c) && activeNoteCounter[c] != nil && allocated(activeNoteCounter[c])
 //@   loop 1 invariant forall c1 byte, c2 byte :: c1 < ch && c2 < ch && c1 != c2 ==> activeNoteCounter[c1] != activeNoteCounter[c2]
@@ -610,6 +627,9 @@ package device
 //@ pred extOK(d *Device) := d.externalNoteTracker != nil && (forall ch byte :: ch < 16 ==> has(d.externalNoteTracker, ch) && d.externalNoteTracker[ch] != nil)
 
 //@ func (*Device).handleInputEvents
+// every return path reports to the WaitGroup exactly once
+//@   ghost entry wgDone = 0
+//@   ensures [C16] wgDone == 1
 //@   requires [C16] !locked[d.externalTrackerMutex]
 //@   loop 1 invariant [C16] !locked[d.externalTrackerMutex]
 //@   requires d != nil && extOK(d) && ctx != nil && wg != nil
